@@ -137,8 +137,12 @@ def operators(ctx, envs):
             bsnap = env.snapshot(sb, b)
             A, B = set(sa[1]), set(sb[1])
             want = {"|": A | B, "&": A & B, "-": A - B, "^": A ^ B}[sym[0]]
+            barg = b
+            if inplace and sb[0] in ("list", "tuple") and rng.random() < 0.4:
+                # a one-shot iterable operand (iterator / generator)
+                barg = iter(b) if rng.random() < 0.5 else (x for x in b)
             try:
-                r = ops[sym](a, b)
+                r = ops[sym](a, barg)
                 got = sorted(env.km.ik(k) for k in r)
                 keys = [env.km.ik(k) for k in r]
                 ok = keys == sorted(want)
